@@ -1,7 +1,8 @@
 (* C11 - Validation policy: builder steps independent, every configured check enforced. *)
 From Coq Require Import List String Ascii Bool Arith NArith.
 Import ListNotations.
-Require Import SDJ.Json SDJ.Wire SDJ.Model2 SDJ.Out SDJ.Jwt SDJ.C11Proofs.
+From Coq Require Import Permutation.
+Require Import SDJ.Json SDJ.Wire SDJ.Model2 SDJ.Out SDJ.Jwt SDJ.C11Proofs SDJ.C11Order.
 Local Open Scope string_scope.
 
 Theorem C11_frame :
@@ -21,6 +22,26 @@ Print Assumptions C11_frame.
 Theorem C11_commute : forall v a b, named a <> named b -> step (step v a) b = step (step v b) a.
 Proof. exact step_commute. Qed.
 Print Assumptions C11_commute.
+
+(* "the resulting policy does not depend on the order in which steps are applied": any permutation of a
+   sequence of builder steps that names every setting at most once builds the same policy ... *)
+Theorem C11_order_irrelevant :
+  forall l1 l2, Permutation l1 l2 -> NoDup (map named l1) -> forall v, run_steps l1 v = run_steps l2 v.
+Proof. exact steps_order_irrelevant. Qed.
+Print Assumptions C11_order_irrelevant.
+
+(* ... and with_required_claim may be repeated (it adds to a set): on a policy whose required-claims set is a
+   set (every policy reachable from Validation::new is: policy_ok_new, run_steps_policy_ok) any permutation of a
+   sequence in which every OTHER setting is named at most once builds the same policy *)
+Theorem C11_order_irrelevant_required_sets :
+  forall l1 l2, Permutation l1 l2 -> others_once l1 -> forall v, policy_ok v -> run_steps l1 v = run_steps l2 v.
+Proof. exact steps_order_irrelevant_sets. Qed.
+Print Assumptions C11_order_irrelevant_required_sets.
+
+Theorem C11_reachable_policies_are_sets :
+  forall a l, policy_ok (run_steps l (validation_new a)).
+Proof. intros a l. apply run_steps_policy_ok. exact (policy_ok_new a). Qed.
+Print Assumptions C11_reachable_policies_are_sets.
 
 Theorem C11_forward :
   forall v,
